@@ -19,7 +19,7 @@ func init() {
 			"(R4) on the terminating path unsubscribe-all, registry removal, one OnKilled to every watcher and to the parent, ActorKilledEvent and scheduler clear each happen exactly once, and none of the first five is reachable on the restart path; the registry removal precedes every termination notice; " +
 			"(R5) ActorOf refuses when the parent is killed and kills the new child when the parent is killing, and that decision is taken on a state read after the child is in the parent's table (F37: a sample from the entry goes stale when the root's ActorOf races its stop); (R6) a child's death is recorded before the killed gate is evaluated. " +
 			"(R10) the handler that records watchers stores the sender on every path, except on the edge where the sender is the parent (notified separately), where the reference stored under the key IS the sender's own reference object (the key being already recorded does not exempt: the key is address@path and the stored reference may be a dead namesake's, F38), or after telling the sender directly; " +
-			"(R9 = C20.R1) the scheduler-cleanup step deletes every recorded job, the loop is never left early. (R6, addition) inside the child-death step the dead child's table entry is removed before the user's handler for that death runs (a same-name re-spawn in the handler must not be deleted afterwards), and a delete from the path-keyed child table is dominated by Equals(entry looked up, reference) == true, so the death of a namesake on another system does not remove the live local child (F41). (R10, additions) see F38; the watcher table as a whole is replaced only by its lazy creation or on a path of a kill-chain step that a restart cannot take. (R11 = the graceful-stop and chain-walk checks of C09.R3) a graceful stop decided after an escalation resumes every actor suspended along the chain. (R5 of C04, shared as C07.R10) the path-keyed sweep of pending asks never runs after the path was released. NOT decided: cross-actor ordering of termination reports at run time, concurrent kills racing spawns.",
+			"(R9 = C20.R1) the scheduler-cleanup step deletes every recorded job, the loop is never left early. (R6, addition) inside the child-death step the dead child's table entry is removed before the user's handler for that death runs (a same-name re-spawn in the handler must not be deleted afterwards), and a delete from the path-keyed child table is dominated by the identity (==) of the entry looked up and the notice's reference, so neither the death of a namesake on another system (F41) nor the late notice of a predecessor whose name was re-used (F45) removes a live child. (R10, additions) see F38; the watcher table as a whole is replaced only by its lazy creation or on a path of a kill-chain step that a restart cannot take. (R11 = the graceful-stop and chain-walk checks of C09.R3) a graceful stop decided after an escalation resumes every actor suspended along the chain. (R5 of C04, shared as C07.R10) the path-keyed sweep of pending asks never runs after the path was released. NOT decided: cross-actor ordering of termination reports at run time, concurrent kills racing spawns.",
 		Assumptions: []string{"the kill chain steps are exactly the functions appended in the context's kill-chain builder (chain idiom)"},
 		Rules: []Rule{
 			{ID: "C06.R1", Min: 5, Desc: "one-shot kill entry; state writers", Fn: c06OneShot},
@@ -31,7 +31,9 @@ func init() {
 			}},
 			{ID: "C06.R5", Min: 3, Desc: "spawn while dying", Fn: c06SpawnWhileDying},
 			{ID: "C06.R6", Min: 1, Desc: "child death recorded before the killed gate", Fn: c06ChainOrder},
-			{ID: "C06.R8", Min: 4, Desc: "every spawned child is in the parent's child table before it runs, so the kill fan-out reaches it (C05.R2)", Fn: c05Spawn},
+			{ID: "C06.R8", Min: 4, Desc: "every spawned child is in the parent's child table before it runs, so the kill fan-out reaches it (C05.R2)", Fn: func(p *Program, r *Report) {
+				r.only(c05Spawn, func(c string) bool { return !strings.Contains(c, "reachable through the registry") })
+			}},
 			{ID: "C06.R9", Min: 2, Desc: "scheduler jobs of a dead actor are all deleted (C20.R1)", Fn: c20Die},
 			{ID: "C06.R10", Min: 1, Desc: "the watch handler registers every watcher other than the parent", Fn: c06WatchRegisters},
 			{ID: "C06.R7", Min: 8, Desc: "subscription indexes stay consistent, so unsubscribe-all on termination finds every subscription (C19.R2)", Fn: c19Indexes},
@@ -686,7 +688,9 @@ func c06SpawnWhileDying(p *Program, r *Report) {
 		}
 		// "not running": state != running, or state == killing / killed
 		f := ef.Fact
-		if (f.Op == token.NEQ && f.C == lc.Running) || (f.Op == token.EQL && (f.C == lc.Killing || f.C == lc.Killed)) {
+		// only "!= running" covers both killing and killed: a parent without other children goes running→killing→killed within one
+		// message, and a re-check for "== killing" alone lets a child registered in that window live on under a dead parent
+		if f.Op == token.NEQ && f.C == lc.Running {
 			fresh[ef.E] = true
 		}
 	}
@@ -753,8 +757,9 @@ func c06ChainOrder(p *Program, r *Report) {
 	r.Check(ok, "child entry removed before the death handler runs", firstPos(g, dels), "in the child-death step every run of the user's behaviour is dominated by the removal of the dead child's entry from the child table")
 	// … and only the entry of the actor the notice names. The table is keyed by PATH, and the step runs for every foreign OnKilled —
 	// also for a watched actor on another system, whose path may equal the path of a local child (symmetric deployments). Every
-	// delete from the child table under a key that is not a ranged key of the table itself is dominated by the true edge of
-	// Equals between the entry looked up in the table and a reference: the live child of a dead namesake stays in the table (F41).
+	// delete from the child table under a key that is not a ranged key of the table itself is dominated by the edge on which the entry
+	// looked up in the table is identical (==) to a reference: a comparison by address and path is not enough, a dying actor frees
+	// its name before its parent has handled the notice and the parent may have re-created the name meanwhile (F41, F45).
 	for _, a := range p.fieldAccesses(map[*types.Var]bool{children: true}) {
 		if a.Kind != "delete" || a.Fresh {
 			continue
@@ -770,33 +775,8 @@ func c06ChainOrder(p *Program, r *Report) {
 				continue // clearing loop over the table's own keys
 			}
 		}
-		same, _ := callEdges(dg, func(c *ssa.Call) bool {
-			name := ""
-			if c.Call.IsInvoke() {
-				name = c.Call.Method.Name()
-			} else if y := c.Call.StaticCallee(); y != nil {
-				name = y.Name()
-			}
-			if name != "Equals" {
-				return false
-			}
-			for _, v := range append([]ssa.Value{c.Call.Value}, c.Call.Args...) {
-				if v == nil {
-					continue
-				}
-				w := strip(v)
-				if ex, isEx := w.(*ssa.Extract); isEx {
-					w = ex.Tuple
-				}
-				if lk, isL := w.(*ssa.Lookup); isL {
-					if f, _ := fieldLoad(strip(lk.X)); f == children {
-						return true
-					}
-				}
-			}
-			return false
-		})
-		r.Check(len(same) > 0 && dg.DominatedByEdges(di, same), "child entry removed only for the actor the notice names ("+a.Fn.Name()+")", a.In.Pos(), "the delete from the path-keyed child table is dominated by Equals(entry looked up in the table, reference) == true: the death of an actor with the same path on another system does not remove the live local child")
+		same, _ := identityEdges(p, dg, children)
+		r.Check(len(same) > 0 && dg.DominatedByEdges(di, same), "child entry removed only for the actor the notice names ("+a.Fn.Name()+")", a.In.Pos(), "the delete from the path-keyed child table is dominated by the edge on which the entry looked up in the table IS (==) the reference of the notice: neither the death of an actor with the same path on another system (F41) nor the late notice of a predecessor whose name was re-used (F45) removes a live child")
 	}
 }
 
@@ -924,6 +904,45 @@ func c06WatchRegisters(p *Program, r *Report) {
 	if n == 0 {
 		r.Unresolved("no function stores into the watcher table")
 	}
+	// the comparison with the parent must be safe for the ROOT, whose parent field is a nil pointer of the reference type: the
+	// reference type's Equals(other) calls methods on `other` only where `other` is known not to be that typed nil — otherwise
+	// every watch request to the root dereferences nil in the root's mailbox goroutine, outside any recover (F44).
+	if refT := namedOf(lc.RefF.Type()); refT != nil {
+		if eq := p.methodNamed(refT, "Equals"); eq != nil && len(eq.Params) == 2 {
+			eg := p.ig(eq)
+			other := eq.Params[1]
+			safe := map[edge]bool{}
+			for _, ifi := range eg.ifs() {
+				for _, oc := range []bool{true, false} {
+					f, ok := condFact(ifi.Cond, oc)
+					if !ok {
+						continue
+					}
+					e := eg.branchEdge(ifi, oc)
+					x := strip(f.X)
+					if ex, isEx := x.(*ssa.Extract); isEx {
+						if ta, isTA := ex.Tuple.(*ssa.TypeAssert); isTA && ta.X == ssa.Value(other) && namedOf(ta.AssertedType) == refT {
+							if (ex.Index == 0 && f.IsNil && f.Op == token.NEQ) || (ex.Index == 1 && f.Bool && f.Op == token.EQL) {
+								safe[e] = true
+							}
+						}
+					}
+				}
+			}
+			okEq := true
+			var posEq = eq.Pos()
+			for i, in := range eg.Nodes {
+				c := callOf(in)
+				if c == nil || !c.IsInvoke() || c.Value != ssa.Value(other) {
+					continue
+				}
+				if len(safe) == 0 || !eg.DominatedByEdges(i, safe) {
+					okEq, posEq = false, in.Pos()
+				}
+			}
+			r.Check(okEq, "reference equality is safe for the root's absent parent", posEq, "every method call on Equals' argument is dominated by the edge on which the argument is not a nil pointer of the reference type (or is not of that type): the root compares every watch requester with its nil parent")
+		}
+	}
 	// the table as a whole is replaced only when it is created lazily (a fresh map stored on the edge where the field is nil) or on a
 	// path of a kill-chain step that a RESTART cannot take: a restart keeps the reference and its watchers, and the steps of the
 	// chain other than the clean-up run for restarts too. A table dropped on a restart path forgets everybody who watched the
@@ -983,22 +1002,44 @@ func nilTableEdges(p *Program, g *IG, f *types.Var) map[edge]bool {
 	return out
 }
 
-// noEntryEdges: the edges of g on which the path-keyed table f holds no entry for the actor a notice names: the table is nil, the
-// lookup under the key missed, or the entry found is not Equal to the reference (a namesake on another system).
-func noEntryEdges(p *Program, g *IG, f *types.Var) map[edge]bool {
-	out := nilTableEdges(p, g, f)
-	fromTable := func(v ssa.Value) *ssa.Lookup {
+// identityEdges: the edges of g on which the entry looked up in the path-keyed table f IS (==) / IS NOT (!=) another value
+func identityEdges(p *Program, g *IG, f *types.Var) (same, notSame map[edge]bool) {
+	same, notSame = map[edge]bool{}, map[edge]bool{}
+	fromTable := func(v ssa.Value) bool {
 		w := strip(v)
 		if ex, isEx := w.(*ssa.Extract); isEx {
 			w = ex.Tuple
 		}
 		if lk, isL := w.(*ssa.Lookup); isL {
 			if lf, _ := fieldLoad(strip(lk.X)); lf == f {
-				return lk
+				return true
 			}
 		}
-		return nil
+		return false
 	}
+	for _, ifi := range g.ifs() {
+		for _, oc := range []bool{true, false} {
+			fc, ok := condFact(ifi.Cond, oc)
+			if !ok || fc.Y == nil || (fc.Op != token.EQL && fc.Op != token.NEQ) {
+				continue
+			}
+			if !fromTable(fc.X) && !fromTable(fc.Y) {
+				continue
+			}
+			if fc.Op == token.EQL {
+				same[g.branchEdge(ifi, oc)] = true
+			} else {
+				notSame[g.branchEdge(ifi, oc)] = true
+			}
+		}
+	}
+	return
+}
+
+// noEntryEdges: the edges of g on which the path-keyed table f holds no entry for the actor a notice names: the table is nil, the
+// lookup under the key missed, or the entry found is not the very reference (a namesake on another system, a same-name successor).
+func noEntryEdges(p *Program, g *IG, f *types.Var) map[edge]bool {
+	out := nilTableEdges(p, g, f)
 	for _, in := range g.Nodes {
 		if lk, isL := in.(*ssa.Lookup); isL && lk.CommaOk {
 			if lf, _ := fieldLoad(strip(lk.X)); lf == f {
@@ -1009,23 +1050,7 @@ func noEntryEdges(p *Program, g *IG, f *types.Var) map[edge]bool {
 			}
 		}
 	}
-	_, notSame := callEdges(g, func(c *ssa.Call) bool {
-		name := ""
-		if c.Call.IsInvoke() {
-			name = c.Call.Method.Name()
-		} else if y := c.Call.StaticCallee(); y != nil {
-			name = y.Name()
-		}
-		if name != "Equals" {
-			return false
-		}
-		for _, v := range append([]ssa.Value{c.Call.Value}, c.Call.Args...) {
-			if v != nil && fromTable(v) != nil {
-				return true
-			}
-		}
-		return false
-	})
+	_, notSame := identityEdges(p, g, f)
 	for e := range notSame {
 		out[e] = true
 	}
